@@ -164,6 +164,27 @@ pub fn judge(case: &Case, acc: &mut Acc) {
 
 struct BuilderModel {
     class: u8,
+    /// 0 = the main alphabet, 1 = the attributes of the RFC 8489 long-term credential flow
+    which: u8,
+}
+
+/// USERNAME / USERHASH, REALM, NONCE, PASSWORD-ALGORITHM (MD5 and SHA-256), PASSWORD-ALGORITHMS, then
+/// integrity under long-term and short-term credentials and the fingerprint: what the message says
+/// about algorithms never changes the key the integrity attribute is computed with
+fn alphabet_lt() -> Vec<Op> {
+    vec![
+        Op::Typed(Kind::Username, b"lt-user".to_vec()),
+        Op::Typed(Kind::Userhash, (0..32).collect()),
+        Op::Typed(Kind::Realm, b"realm.example".to_vec()),
+        Op::Typed(Kind::Nonce, b"obMatJos2AAACf//499k954d6OL34oL9FSTvy64sA".to_vec()),
+        Op::Typed(Kind::PasswordAlgorithm, vec![0, 2, 0, 0]),
+        Op::Raw(0x001D, vec![0, 1, 0, 0]),
+        Op::Typed(Kind::PasswordAlgorithms, vec![0, 1, 0, 0, 0, 2, 0, 0]),
+        Op::Sha1(1),
+        Op::Sha256(1),
+        Op::Sha256(0),
+        Op::Fp,
+    ]
 }
 
 #[derive(Clone)]
@@ -177,14 +198,14 @@ impl SmModel for BuilderModel {
     type State = BNode;
     type Action = Op;
     fn name(&self) -> String {
-        format!("builder/class{}", self.class)
+        format!("builder/class{}/alphabet{}", self.class, self.which)
     }
     fn init(&self) -> Vec<BNode> {
         vec![BNode { ops: vec![], key: 0, dead: false }]
     }
     fn actions(&self, s: &BNode, out: &mut Vec<Op>) {
         if !s.dead {
-            out.extend(alphabet());
+            out.extend(if self.which == 0 { alphabet() } else { alphabet_lt() });
         }
     }
     fn step(&self, s: &BNode, a: &Op, acc: &mut Acc) -> Option<BNode> {
@@ -229,12 +250,13 @@ pub fn run(ctx: &Ctx) -> Report {
     let mut transitions = 0;
     let mut caps = Vec::new();
     let mut levels = Vec::new();
-    for class in [0u8, 3] {
-        let m = BuilderModel { class };
+    for (class, which) in [(0u8, 0u8), (3, 0), (0, 1), (2, 1)] {
+        let m = BuilderModel { class, which };
+        let depth = if which == 0 { depth } else { depth.min(ctx.tier.pick(6, 7)) };
         let res = explore(&m, &Limits { max_depth: depth, max_states: 5_000_000, budget_s: ctx.budget_s() }, ctx.start);
         states += res.states;
         transitions += res.transitions;
-        levels.push(json!({"class": class, "depth_completed": res.depth_completed, "per_level": res.per_level}));
+        levels.push(json!({"class": class, "alphabet": which, "depth_completed": res.depth_completed, "per_level": res.per_level}));
         if let Some(c) = res.capped {
             caps.push(c);
         }
@@ -277,7 +299,7 @@ pub fn run(ctx: &Ctx) -> Report {
         states,
         transitions,
         exhaustive: true,
-        rule: "all sequences up to the depth over {add typed SOFTWARE/USERNAME/PRIORITY/XOR-MAPPED-ADDRESS, add raw 0xff00/0x7f00/SOFTWARE's code, add SHA-1 integrity, add SHA-256 integrity, add fingerprint, into_owned, clone} x {request, error}; states deduplicated on reference builder state + the builder's complete Debug snapshot; plus, for every 16-bit type code x, two fixed programs that add x as a raw attribute before / after typed attributes, add x ^ 0x40, seal in every way and try x again; distinct_nontrivial = unique states + sweep programs".into(),
+        rule: "all sequences up to the depth over {add typed SOFTWARE/USERNAME/PRIORITY/XOR-MAPPED-ADDRESS, add raw 0xff00/0x7f00/SOFTWARE's code, add SHA-1 integrity, add SHA-256 integrity, add fingerprint, into_owned, clone} x {request, error}, and to depth 6 (7) over the attributes of the long-term credential flow {USERNAME, USERHASH, REALM, NONCE, PASSWORD-ALGORITHM typed SHA-256 / raw MD5, PASSWORD-ALGORITHMS, integrity under long- and short-term credentials, fingerprint} x {request, success}; states deduplicated on reference builder state + the builder's complete Debug snapshot; plus, for every 16-bit type code x, two fixed programs that add x as a raw attribute before / after typed attributes, add x ^ 0x40, seal in every way and try x again; distinct_nontrivial = unique states + sweep programs".into(),
         bounds: json!({"depth": depth, "alphabet": 12, "levels": levels}),
         assumptions: vec!["a snapshot difference after a refused operation is an evidence note only (the successor is a new state whose futures are explored)".into()],
         caps_hit: caps,
